@@ -1,10 +1,11 @@
 #!/bin/bash
-# tools/seed_batch.sh C03 C06 ... : evaluate round-2 seeded changes /tmp/mutout_<pid>r2/{A2,B2} one after the other
+# ROUND=3 tools/seed_batch.sh C03 C06 ... : evaluate seeded changes /tmp/mutout_<pid>r$ROUND/{A$ROUND,B$ROUND} one after the other (default ROUND=2)
 cd "$(dirname "$0")/.."
+R=${ROUND:-2}
 for pid in "$@"; do
   low=$(echo $pid | tr 'A-Z' 'a-z')
-  for v in A2 B2; do
-    d=/tmp/mutout_${low}r2/$v
+  for v in A$R B$R; do
+    d=/tmp/mutout_${low}r$R/$v
     [ -f $d/patch.diff ] || { echo "$pid $v: no patch"; continue; }
     name=$(grep -m1 -i '^# ' $d/notes.md | sed 's/^# *//' | tr -c 'A-Za-z0-9\n' '_' | cut -c1-40 | sed 's/_*$//')
     python3 tools/seed_eval.py $pid $d ${v}_$name > /tmp/seed_eval_${pid}_$v.log 2>&1
